@@ -89,16 +89,25 @@ func (m c06seq) build() seq.Sequence {
 	if m.Circ {
 		conf = feat.Circular
 	}
+	// slices with room to spare (as AppendLetters leaves them): an append onto such a slice writes into its owner's array
+	spare := 0
+	if len(m.L)%3 == 1 {
+		spare = 8 + 7*(len(m.L)%11)
+	}
 	if m.IsQ {
-		ql := make([]alphabet.QLetter, len(m.L))
+		ql := make([]alphabet.QLetter, len(m.L), len(m.L)+spare)
 		for i := range ql {
 			ql[i] = alphabet.QLetter{L: alphabet.Letter(m.L[i]), Q: alphabet.Qphred(m.Q[i])}
 		}
-		s := linear.NewQSeq("s", ql, al, alphabet.Sanger)
+		s := linear.NewQSeq("s", nil, al, alphabet.Sanger)
+		s.Seq = ql
 		s.Offset, s.Conform = m.Off, conf
 		return s
 	}
-	s := linear.NewSeq("s", alphabet.BytesToLetters([]byte(m.L)), al)
+	ls := make([]alphabet.Letter, len(m.L), len(m.L)+spare)
+	copy(ls, alphabet.BytesToLetters([]byte(m.L)))
+	s := linear.NewSeq("s", nil, al)
+	s.Seq = ls // the constructor copies its argument; the roomy slice goes into the exported field
 	s.Offset, s.Conform = m.Off, conf
 	return s
 }
